@@ -50,6 +50,7 @@ class H:
         self.timeout = 900
         self.tolerate = None
         self.doc = ""
+        self.quickfeats = 1
 
 
 def load_harnesses():
@@ -91,6 +92,8 @@ def load_harnesses():
                         h.timeout = int(v)
                     elif k == "tolerate":
                         h.tolerate = v
+                    elif k == "quickfeats":
+                        h.quickfeats = int(v)
                 h.doc = " ".join(doc)
                 if h.props:
                     hs[h.name] = h
